@@ -35,17 +35,39 @@ impl Out {
         self.n += 1;
         let same = |b: &Seq<C>| b == s && s == b && b.len() == s.len() && b.to_string() == s.to_string() && h(b) == h(s) && (0..s.len()).all(|i| b.nth(i) == s.nth(i));
         match bincode::serialize(s) {
-            Ok(bytes) => match bincode::deserialize::<Seq<C>>(&bytes) {
-                Ok(b) => if !same(&b) { self.fail(format!("bincode {} {}: {} came back as {}", what, core::any::type_name::<C>(), s, b)) },
-                Err(e) => self.fail(format!("bincode {} {}: {} does not deserialize: {}", what, core::any::type_name::<C>(), s, e)),
-            },
+            Ok(bytes) => {
+                match bincode::deserialize::<Seq<C>>(&bytes) {
+                    Ok(b) => if !same(&b) { self.fail(format!("bincode {} {}: {} came back as {}", what, core::any::type_name::<C>(), s, b)) },
+                    Err(e) => self.fail(format!("bincode {} {}: {} does not deserialize: {}", what, core::any::type_name::<C>(), s, e)),
+                }
+                // the same image through a reader (no borrowing from the input buffer), and written through a writer
+                match bincode::deserialize_from::<_, Seq<C>>(std::io::Cursor::new(bytes.clone())) {
+                    Ok(b) => if !same(&b) { self.fail(format!("bincode reader {} {}: {} came back as {}", what, core::any::type_name::<C>(), s, b)) },
+                    Err(e) => self.fail(format!("bincode reader {} {}: {} does not deserialize: {}", what, core::any::type_name::<C>(), s, e)),
+                }
+                let mut w: Vec<u8> = vec![];
+                if bincode::serialize_into(&mut w, s).is_err() || w != bytes { self.fail(format!("bincode serialize_into {} {}: image differs from serialize", what, core::any::type_name::<C>())); }
+            }
             Err(e) => self.fail(format!("bincode {} {}: {} does not serialize: {}", what, core::any::type_name::<C>(), s, e)),
         }
         match serde_json::to_string(s) {
-            Ok(t) => match serde_json::from_str::<Seq<C>>(&t) {
-                Ok(b) => if !same(&b) { self.fail(format!("json {} {}: {} came back as {}", what, core::any::type_name::<C>(), s, b)) },
-                Err(e) => self.fail(format!("json {} {}: {} does not deserialize: {}", what, core::any::type_name::<C>(), s, e)),
-            },
+            Ok(t) => {
+                match serde_json::from_str::<Seq<C>>(&t) {
+                    Ok(b) => if !same(&b) { self.fail(format!("json {} {}: {} came back as {}", what, core::any::type_name::<C>(), s, b)) },
+                    Err(e) => self.fail(format!("json {} {}: {} does not deserialize: {}", what, core::any::type_name::<C>(), s, e)),
+                }
+                let via_reader = serde_json::from_reader::<_, Seq<C>>(std::io::Cursor::new(t.clone().into_bytes()));
+                let via_slice = serde_json::from_slice::<Seq<C>>(t.as_bytes());
+                let via_value = serde_json::to_value(s).ok().and_then(|v| serde_json::from_value::<Seq<C>>(v).ok());
+                if !(via_reader.as_ref().map_or(false, |b| same(b)) && via_slice.as_ref().map_or(false, |b| same(b)) && via_value.as_ref().map_or(false, |b| same(b))) {
+                    self.fail(format!("json (reader / slice / value) {} {}: {} does not round trip: reader={:?} slice={:?} value={:?}", what, core::any::type_name::<C>(), s,
+                        via_reader.map(|b| b.to_string()).map_err(|e| e.to_string()), via_slice.map(|b| b.to_string()).map_err(|e| e.to_string()), via_value.map(|b| b.to_string())));
+                }
+                match serde_json::to_string_pretty(s).ok().and_then(|p| serde_json::from_str::<Seq<C>>(&p).ok()) {
+                    Some(b) if same(&b) => {}
+                    _ => self.fail(format!("json pretty {} {}: {} does not round trip", what, core::any::type_name::<C>(), s)),
+                }
+            }
             Err(e) => self.fail(format!("json {} {}: {} does not serialize: {}", what, core::any::type_name::<C>(), s, e)),
         }
     }
@@ -152,8 +174,17 @@ where
     match serde_json::to_string(&k).ok().and_then(|t| serde_json::from_str::<Kmer<C, K, S>>(&t).ok()) {
         Some(b) if same(&b) => {}
         other => o.fail(format!("json k-mer {} K={} {}: got {:?}", core::any::type_name::<C>(), K, k, other.map(|x| x.to_string()))),
+    }    let rd = bincode::serialize(&k).ok().and_then(|b| bincode::deserialize_from::<_, Kmer<C, K, S>>(std::io::Cursor::new(b)).ok());
+    let jr = serde_json::to_vec(&k).ok().and_then(|b| serde_json::from_reader::<_, Kmer<C, K, S>>(std::io::Cursor::new(b)).ok());
+    // serde_json's in-memory `Value` cannot hold a 128-bit integer (a limitation of that crate, not of bio-seq): the value
+    // route is exercised for word-sized storage only
+    let value_route = core::mem::size_of::<S>() <= 8;
+    let jv = if value_route { serde_json::to_value(&k).ok().and_then(|v| serde_json::from_value::<Kmer<C, K, S>>(v).ok()) } else { None };
+    if !(rd.as_ref().map_or(false, |b| same(b)) && jr.as_ref().map_or(false, |b| same(b)) && (!value_route || jv.as_ref().map_or(false, |b| same(b)))) {
+        o.fail(format!("k-mer through a reader / value {} K={} {}: bincode reader={:?} json reader={:?} json value={:?}", core::any::type_name::<C>(), K, k, rd.map(|x| x.to_string()), jr.map(|x| x.to_string()), jv.map(|x| x.to_string())));
     }
 }
+
 
 fn kmers(o: &mut Out, r: &mut rng::Rng, rounds: usize) {
     for i in 0..rounds {
